@@ -23,6 +23,8 @@ from sa.terms import T
 from sa.pyfront import Program
 
 RULES = {
+    "R-C18-j": "standard deviation, dispatch and arithmetic: one column is handed over whole, several columns are filled one by one (column i of every row array into column i of every region, for all i); a cell needs at least 2 rows; both fill routines scale the weighted variance by N / (N - 1); valid and missing rows are counted per column",
+    "R-C18-i": "minimum / maximum: a cell that receives a value is marked valid in the same breath (value store and validity store under the same guards), per branch: ignoring - the valid rows of the cell, non-empty; propagating - all rows, non-empty and all valid",
     "R-C18-h": "aggregate constructors do not overwrite the caller's arrays (imported from the C17 frame analysis): NaN-seeding or zero-filling the caller's own array changes what every later computation over it - the other cube, a group-by, the next statistic - sees",
     "R-C18-g": "standard deviation: the sum of squared deviations is accumulated from deviations (x - mean)**2 (two-pass), not as sum(w*x*x) - mean*sum(w*x), whose subtraction cancels catastrophically for values that are large relative to their spread",
     "R-C18-a": "stddev: a cell with fewer than two valid rows is reported missing under both policies",
@@ -113,12 +115,25 @@ def rule_c(prog, rep):
 
 
 def rule_d(prog, rep):
-    # quantile call arguments
-    m = AT.model(prog, "xfuncs", "xfunc_quantile", aggr.Config())
-    fi, I, fr = m.fill
-    qs = [e for e in I.events if e.kind == "call" and e["name"] in ("numpy.quantile", "numpy.nanquantile")]
-    ok = bool(qs) and all(dict(e["kwargs"]).get("axis") == tm.const(0) and len(e["args"]) == 2 and not [k for k, v in e["kwargs"] if k in ("method", "interpolation")] for e in qs)
-    rep.check(ok, "R-C18-d", fi.fq, "quantile(segment, probability, axis=0) with NumPy's default (linear) method", "%d call sites" % len(qs), "quantile is called with other arguments")
+    # quantile call arguments, with and without dimensions; every branch stores its result
+    for co in (True, False):
+        m = AT.model(prog, "xfuncs", "xfunc_quantile", aggr.Config(coords=co, N=not co))
+        fi, I, fr = m.fill
+        qs = [e for e in I.events if e.kind == "call" and e["name"] in ("numpy.quantile", "numpy.nanquantile")]
+        ok = bool(qs) and all(dict(e["kwargs"]).get("axis") == tm.const(0) and len(e["args"]) == 2 and not [k for k, v in e["kwargs"] if k in ("method", "interpolation")] for e in qs)
+        rep.check(ok, "R-C18-d", fi.fq, "quantile(segment, probability, axis=0) with NumPy's default (linear) method (%s)" % ("by coordinates" if co else "no coordinates"), "%d call sites" % len(qs),
+                  "quantile is called with other arguments (without axis=0 several fact columns are flattened into one)", witness={"inputs": "two fact columns%s" % ("" if co else ", xcube([])")})
+        for w in ("none", "array"):
+            mw = AT.model(prog, "xfuncs", "xfunc_quantile", aggr.Config(weights=w, coords=co, N=not co))
+            f2, I2, fr2 = mw.fill
+            st = [e for e in I2.events if e.kind == "store_sub" and not e.stack and e["value"].op == "call"]
+            rep.check(len(st) >= 1, "R-C18-d", f2.fq, "quantile (weights %s, %s): the result is stored into the region" % (w, "by coordinates" if co else "no coordinates"), "%d store(s)" % len(st),
+                      "no store of a computed quantile on this branch: every cell stays NaN", witness={"inputs": "any data in this configuration"})
+    # negative weights are zeroed in the constructor (documented; keeps the result inside [min, max] of the cell)
+    mq = AT.model(prog, "xfuncs", "xfunc_quantile", aggr.Config(weights="array"))
+    neg = [e for e in mq.I0.events if e.kind == "store_sub" and tm.is_const(e["value"], 0) and tm.contains(e["index"], lambda x: x.op == "cmp" and x.args[0] in ("<", "<=") and tm.is_const(x.args[2], 0))]
+    rep.check(len(neg) >= 1, "R-C18-d", "xfuncs:xfunc_quantile.__init__", "negative weights are set to 0", "weights[weights < 0] = 0", "negative weights are used as they are: the weighted quantile can leave the range of the cell's values",
+              witness={"inputs": "weights [-1, 2, 1]"})
     # min / max
     for cls, want in (("xfunc_max", "numpy.amax"), ("xfunc_min", "numpy.amin")):
         ci = prog.cls("xfuncs", cls)
@@ -135,18 +150,30 @@ def rule_d(prog, rep):
     fi, I, fr = mo.fill
     ops = [e for e in I.events if e.kind == "call" and e["f"].op == "attr" and e["f"].args[1] == "op"]
     rep.check(bool(ops) and all(dict(e["kwargs"]).get("axis") == tm.const(0) for e in ops), "R-C18-d", fi.fq, "min/max reduce over the rows of the cell (axis=0)", "%d call sites" % len(ops), "")
-    # corrcoef / cov
-    mc = AT.model(prog, "xfuncs", "xfunc_corrcoef", aggr.Config())
-    fi, I, fr = mc.fill
-    cc = [e for e in I.events if e.kind == "call" and e["name"] == "numpy.corrcoef"]
-    rep.check(bool(cc) and all(dict(e["kwargs"]).get("rowvar") == tm.FALSE for e in cc), "R-C18-d", fi.fq, "corrcoef delegates to numpy.corrcoef(segment, rowvar=False)", "%d call sites" % len(cc), "rowvar=False missing: variables would be taken from rows")
-    for w in ("none", "array"):
-        mv = AT.model(prog, "xfuncs", "xfunc_covariance", aggr.Config(weights=w))
-        fi, I, fr = mv.fill
-        cv = [e for e in I.events if e.kind == "call" and e["name"] == "numpy.cov"]
-        okT = bool(cv) and all(e["args"] and e["args"][0].op == "attr" and e["args"][0].args[1] == "T" for e in cv)
-        okw = all(any(k == "aweights" for k, v in e["kwargs"]) for e in cv)
-        rep.check(okT and okw, "R-C18-d", fi.fq, "covariance (weights %s) delegates to numpy.cov(segment.T, aweights=...)" % w, "%d call sites" % len(cv), "numpy.cov is not given the transposed segment with aweights")
+    # corrcoef / cov, with and without dimensions; every branch stores its result
+    for co in (True, False):
+        tag = "by coordinates" if co else "no coordinates"
+        mc = AT.model(prog, "xfuncs", "xfunc_corrcoef", aggr.Config(coords=co, N=not co))
+        fi, I, fr = mc.fill
+        cc = [e for e in I.events if e.kind == "call" and e["name"] == "numpy.corrcoef"]
+        rep.check(bool(cc) and all(dict(e["kwargs"]).get("rowvar") == tm.FALSE and len(e["args"]) == 1 for e in cc), "R-C18-d", fi.fq, "corrcoef delegates to numpy.corrcoef(segment, rowvar=False) (%s)" % tag, "%d call sites" % len(cc),
+                  "rowvar=False missing: variables would be taken from rows", witness={"inputs": "three rows, two fact columns"})
+        st = [e for e in I.events if e.kind == "store_sub" and tm.contains(e["value"], lambda x: x.op == "call" and tm.callee_name(x) == "numpy.corrcoef")]
+        rep.check(len(st) >= 1, "R-C18-d", fi.fq, "corrcoef (%s): the matrix is stored into the region" % tag, "%d store(s)" % len(st), "no store of the computed matrix on this branch: every cell stays NaN", witness={"inputs": "any data in this configuration"})
+        for w in ("none", "array"):
+            mv = AT.model(prog, "xfuncs", "xfunc_covariance", aggr.Config(weights=w, coords=co, N=not co))
+            fi, I, fr = mv.fill
+            cv = [e for e in I.events if e.kind == "call" and e["name"] == "numpy.cov"]
+            okT = bool(cv) and all(e["args"] and e["args"][0].op == "attr" and e["args"][0].args[1] == "T" for e in cv)
+            okw = all(any(k == "aweights" for k, v in e["kwargs"]) for e in cv)
+            rep.check(okT and okw, "R-C18-d", fi.fq, "covariance (weights %s, %s) delegates to numpy.cov(segment.T, aweights=...)" % (w, tag), "%d call sites" % len(cv), "numpy.cov is not given the transposed segment with aweights")
+            st = [e for e in I.events if e.kind == "store_sub" and tm.contains(e["value"], lambda x: x.op == "call" and tm.callee_name(x) == "numpy.cov")]
+            rep.check(len(st) >= 1, "R-C18-d", fi.fq, "covariance (weights %s, %s): the matrix is stored into the region" % (w, tag), "%d store(s)" % len(st), "no store of the computed matrix on this branch: every cell stays NaN",
+                      witness={"inputs": "any data in this configuration"})
+    # complete cases: a per-column validity is reduced to one flag per row, a per-row validity is left alone
+    for name in ("corrcoef", "covariance"):
+        complete_cases(prog, rep, name)
+        complete_cases_axis(prog, rep, name)
     # unweighted stddev: sqrt(varsums / (N - 1))
     for co in (True, False):
         ms = AT.model(prog, "xfuncs", "xfunc_stddev", aggr.Config(coords=co, N=not co))
@@ -155,6 +182,112 @@ def rule_d(prog, rep):
         ok = bool(sq) and all(e["args"][0].op == "binop" and e["args"][0].args[0] == "/" and e["args"][0].args[2].op == "binop" and e["args"][0].args[2].args[0] == "-" and tm.is_const(e["args"][0].args[2].args[2], 1) for e in sq)
         rep.check(ok, "R-C18-d", fi.fq, "unweighted stddev (%s) = sqrt(sum of squared deviations / (N - 1))" % ("by coordinates" if co else "no coordinates"), "%d call sites" % len(sq), "divisor is not N - 1",
                   witness={"inputs": "two rows 1 and 3: 1.414 expected"})
+
+
+def _is_int(t):
+    return tm.is_const(t) and type(tm.constval(t)) is int
+
+
+def _ndim_guard_truth(c, pol):
+    """For a guard comparing <x>.ndim with an integer literal: the set of ndim in {1, 2, 3} for which it holds; None when
+    it is not such a guard."""
+    if c.op != "cmp" or len(c.args) != 3:
+        return None
+    op, a, b = c.args
+    flip = {"<": ">", ">": "<", "<=": ">=", ">=": "<=", "==": "==", "!=": "!="}
+    if _is_int(a) and b.op == "attr" and b.args[1] == "ndim":
+        a, b, op = b, a, flip.get(op)
+    if not (a.op == "attr" and a.args[1] == "ndim" and _is_int(b)) or op not in flip:
+        return None
+    k = tm.constval(b)
+    f = {"<": lambda n: n < k, ">": lambda n: n > k, "<=": lambda n: n <= k, ">=": lambda n: n >= k, "==": lambda n: n == k, "!=": lambda n: n != k}[op]
+    return frozenset(n for n in (1, 2, 3) if f(n) == pol)
+
+
+def complete_cases(prog, rep, name):
+    from sa.symex import flat_guards
+
+    from sa import hints as _h
+    from sa.symex import Interp as _I
+    f0 = prog.func("xfuncs", "xfunc_%s.__init__" % name)
+    I0 = _I(prog, _h.param_types_for("xfuncs"), _h.FIELD_TYPES, inline=False, oracle=lambda t: None)
+    I0.run(f0)
+    where = "xfuncs:xfunc_%s.__init__" % name
+    cons = "%s: validity of several columns is reduced to complete rows (all columns valid), a per-row validity is kept" % name
+    red = [e for e in I0.events if e.kind == "store_attr" and e["attr"] == "validity" and tm.contains(e["value"], lambda x: x.op == "call" and tm.callee_name(x) in ("numpy.all", "numpy.logical_and.reduce"))]
+    if not red:
+        allst = [e for e in I0.events if e.kind == "store_attr" and e["attr"] == "validity"]
+        rep.add("R-C18-c", where, cons, "UNDECIDED" if allst else "VIOLATED", "no numpy.all(...) reduction stored into self.validity", True,
+                None if allst else {"inputs": "validity of shape (rows, 2), ignore_missing=True"})
+        return
+    for e in red:
+        truth = [t for t in (_ndim_guard_truth(c, pol) for c, pol in flat_guards(e.guards)) if t is not None]
+        if len(truth) != 1:
+            rep.undecided("R-C18-c", where, cons, "the reduction is not guarded by one comparison of .ndim with a literal")
+            continue
+        rep.check(truth[0] == frozenset((2, 3)), "R-C18-c", where, cons, "reduced exactly when validity.ndim is 2 or more",
+                  "the reduction runs for validity.ndim in %s: %s" % (sorted(truth[0]), "a per-row validity is collapsed to one scalar" if 1 in truth[0] else "a per-column validity is not reduced to rows"),
+                  witness={"inputs": "%s validity, ignore_missing=True" % ("1-D" if 1 in truth[0] else "(rows, 2)")})
+
+
+def _eval_axes(expr, ndim):
+    """Value of a closed axis expression (literals, range / tuple / list, comparisons, <x>.ndim taken as `ndim`); None
+    when the expression uses anything else."""
+    import ast
+
+    class Sub(ast.NodeTransformer):
+        def visit_Attribute(self, node):
+            if node.attr == "ndim":
+                return ast.copy_location(ast.Constant(ndim), node)
+            return self.generic_visit(node)
+
+    e = ast.fix_missing_locations(Sub().visit(ast.parse(ast.unparse(expr), mode="eval")))
+    bound = {n.id for c in ast.walk(e) if isinstance(c, ast.comprehension) for n in ast.walk(c.target) if isinstance(n, ast.Name)}
+    allowed = (ast.Expression, ast.GeneratorExp, ast.ListComp, ast.comprehension, ast.Name, ast.Load, ast.Store, ast.Call, ast.Compare, ast.Constant, ast.BinOp, ast.UnaryOp, ast.Tuple, ast.List,
+               ast.operator, ast.cmpop, ast.unaryop, ast.BoolOp, ast.boolop, ast.IfExp)
+    for n in ast.walk(e):
+        if not isinstance(n, allowed):
+            return None
+        if isinstance(n, ast.Name) and n.id not in bound and n.id not in ("tuple", "range", "list"):
+            return None
+        if isinstance(n, ast.Call) and not (isinstance(n.func, ast.Name) and n.func.id in ("tuple", "range", "list")):
+            return None
+    try:
+        v = eval(compile(e, "<axis>", "eval"), {"__builtins__": {}, "tuple": tuple, "range": range, "list": list})
+    except Exception:
+        return None
+    if isinstance(v, int):
+        v = (v,)
+    if not isinstance(v, (tuple, list)) or not all(isinstance(x, int) and -ndim <= x < ndim for x in v):
+        return None
+    return frozenset(x % ndim for x in v)
+
+
+def complete_cases_axis(prog, rep, name):
+    """The reduction removes the column axis of a (rows, columns) validity and keeps the row axis."""
+    import ast
+    fi = prog.func("xfuncs", "xfunc_%s.__init__" % name)
+    where = "xfuncs:xfunc_%s.__init__" % name
+    cons = "%s: the complete-case reduction of a (rows, columns) validity runs over the columns" % name
+    calls = [n for n in ast.walk(fi.node) if isinstance(n, ast.Assign) and any(isinstance(t, ast.Attribute) and t.attr == "validity" for t in n.targets)
+             and isinstance(n.value, ast.Call) and ast.unparse(n.value.func) in ("numpy.all", "np.all") and n.value.args]
+    if len(calls) != 1:
+        rep.undecided("R-C18-c", where, cons, "%d assignments self.validity = numpy.all(...)" % len(calls))
+        return
+    c = calls[0].value
+    transposed = isinstance(c.args[0], ast.Attribute) and c.args[0].attr == "T"
+    ax = [k.value for k in c.keywords if k.arg == "axis"] or list(c.args[1:2])
+    if not ax:
+        rep.violated("R-C18-c", where, cons, "numpy.all without an axis: one flag for the whole array", witness={"inputs": "validity of shape (rows, 2), ignore_missing=True"})
+        return
+    v = _eval_axes(ax[0], 2)
+    if v is None:
+        rep.undecided("R-C18-c", where, cons, "axis expression not evaluable: %s" % ast.unparse(ax[0])[:80])
+        return
+    want = frozenset((0,)) if transposed else frozenset((1,))
+    rep.check(v == want, "R-C18-c", where, cons, "numpy.all(validity%s, axis=%s) for two dimensions" % (".T" if transposed else "", sorted(v)),
+              "for a (rows, columns) validity the reduction runs over axis %s of validity%s: %s" % (sorted(v), ".T" if transposed else "", "one flag per column instead of per row" if v else "nothing is reduced"),
+              witness={"inputs": "validity of shape (3, 2), ignore_missing=True"})
 
 
 def rule_e(prog, rep):
@@ -359,6 +492,147 @@ def rule_g(prog, rep):
     rep.floor("R-C18-g", 4, n)
 
 
+def rule_j(prog, rep):
+    from sa import hints as _h
+    from sa.symex import Interp as _I, flat_guards
+    fi = prog.func("xfuncs", "xfunc_stddev.fill")
+    I = _I(prog, _h.param_types_for("xfuncs"), _h.FIELD_TYPES, inline=False)
+    I.run(fi)
+    self_t = tm.param("self")
+    F = lambda n: T("attr", self_t, n)
+    calls = [e for e in I.events if e.kind == "call" and e["method"] in ("_fill_one_no_coordinates", "_fill_one_by_coordinates") and not e.stack]
+    where = fi.fq
+    if len(calls) != 4:
+        rep.undecided("R-C18-j", where, "stddev dispatch", "expected 4 calls of the fill routines (coordinates x one/several columns), found %d" % len(calls))
+    for e in calls:
+        g = flat_guards(e.guards)
+        bycoord = e["method"] == "_fill_one_by_coordinates"
+        okc = any(c.op == "cmp" and c.args[0] == "is" and tm.NONE in c.args[1:] and pol == (not bycoord) for c, pol in g)
+        nd = [c.args[2].args[1] for c, pol in g if pol and c.op == "cmp" and c.args[0] == "==" and c.args[1].op == "attr" and c.args[1].args[1] == "ndim" and tm.is_const(c.args[2])]
+        args = list(e["args"])
+        if bycoord:
+            coord_ok = len(args) == 6 and args[1] == tm.param(fi.params()[1])
+            rows = args[2:]
+        else:
+            coord_ok = len(args) == 5
+            rows = args[1:]
+        w = "%s@%d" % (where, e.line)
+        names = ("summables", "wsummables", "countables", "validity")
+        if nd == [1]:
+            ok = coord_ok and okc and len(rows) == 4 and all(r == F(n) for r, n in zip(rows, names)) and not e.loops
+            rep.check(ok, "R-C18-j", w, "one column (%s): the four row arrays are handed over whole, in order" % ("by coordinates" if bycoord else "no coordinates"), "", "arguments are %s" % [tm.show(a)[:25] for a in args])
+        elif nd == [2]:
+            lid = e.loops[-1] if e.loops else None
+            it = I.loopinfo[lid].get("iter") if lid else None
+            all_cols = it is not None and it.op == "call" and tm.callee_name(it) == "builtins.range" and it.args[1] == (T("sub", T("attr", F("summables"), "shape"), tm.const(1)),)
+            col = T("iter", it, lid) if it is not None else None
+            sel = T("tuple", T("slice", tm.NONE, tm.NONE, tm.NONE), col) if col is not None else None
+            ok_rows = len(rows) == 4 and all(r == T("sub", F(n), sel) for r, n in zip(rows, names))
+            reg = args[0]
+            ok_reg = reg.op == "comp" and reg.args[1].op == "sub" and reg.args[1].args[1] == sel
+            rep.check(coord_ok and okc and all_cols and ok_rows and ok_reg, "R-C18-j", w, "several columns (%s): for every column i, column i of each row array fills column i of each region" % ("by coordinates" if bycoord else "no coordinates"), "",
+                      "loop %s; rows %s; regions %s" % (it is not None and tm.show(it)[:40], [tm.show(r)[:30] for r in rows][:2], tm.show(reg)[:40]),
+                      witness={"inputs": "a fact with two columns: a column is never filled / filled from another column's rows"})
+        else:
+            rep.undecided("R-C18-j", w, "stddev dispatch", "call not under `summables.ndim == 1 / 2`")
+    # ---- arithmetic of the two routines
+    for q in ("xfunc_stddev._fill_one_no_coordinates", "xfunc_stddev._fill_one_by_coordinates"):
+        f2 = prog.func("xfuncs", q)
+        I0 = _I(prog, _h.param_types_for("xfuncs"), _h.FIELD_TYPES, inline=False)
+        I0.run(f2)
+        seen_if = set()
+        for e in I0.events:
+            for v in list(e.d.values()) + [c for c, p in e.guards]:
+                if isinstance(v, T):
+                    for x in tm.walk(v):
+                        if x.op == "ifexp" and x not in seen_if and x.args[0].op == "cmp" and x.args[0].args[0] in ("is", "is not") and tm.NONE in x.args[0].args[1:] \
+                                and tm.contains(x.args[0], lambda y: y.op == "attr" and y.args[1] == "weights"):
+                            if tm.NONE not in x.args[1:]:
+                                continue  # not a `None if ... else weights` choice
+                            seen_if.add(x)
+                            none_branch, w_branch = (x.args[1], x.args[2]) if x.args[0].args[0] == "is" else (x.args[2], x.args[1])
+                            okw = none_branch == tm.NONE and tm.contains(w_branch, lambda y: y.op == "attr" and y.args[1] == "weights")
+                            rep.check(okw, "R-C18-j", "%s@%d" % (f2.fq, e.line), "%s: the local weights are None exactly when the object has none" % q.split(".")[-1], "None if self.weights is None else self.weights[...]",
+                                      "the choice is inverted: with weights given the unweighted formula is applied (and without weights None is subscripted)",
+                                      witness={"inputs": "weighted stddev with ignore_missing=True"})
+        for wmode in (False, True):
+            def oracle(t, wmode=wmode):
+                if t.op == "cmp" and t.args[0] in ("is", "is not") and tm.NONE in t.args[1:] and tm.contains(t, lambda x: x.op == "attr" and x.args[1] == "weights" or (x.op == "param" and x.args[0] == "weights")):
+                    return (t.args[0] == "is") != wmode
+                return None
+            I2 = _I(prog, _h.param_types_for("xfuncs"), _h.FIELD_TYPES, inline=False, oracle=oracle)
+            I2.run(f2)
+            sq = [e for e in I2.events if e.kind == "call" and e["name"] == "numpy.sqrt" and e["args"]]
+            stored = [e for e in I2.events if e.kind == "store_sub" and tm.contains(e["value"], lambda x: x.op == "call" and tm.callee_name(x) == "numpy.sqrt")]
+            rep.check(len(sq) == 1 and len(stored) == 1, "R-C18-j", f2.fq, "%s, %s: the standard deviation is computed and stored once" % (q.split(".")[-1], "weighted" if wmode else "unweighted"), "",
+                      "%d sqrt call(s), %d store(s) of a square root: the result region is never written on this branch" % (len(sq), len(stored)), witness={"inputs": "every cell stays NaN"})
+            if wmode:
+                # the squared deviations are multiplied by the weights before they are summed
+                for e in stored:
+                    data = [x for x in tm.walk(e["value"]) if x.op == "binop" and x.args[0] == "**" and tm.is_const(x.args[2], 2)]
+                    prod = [x for x in tm.walk(e["value"]) if x.op == "binop" and x.args[0] == "*" and any(tm.contains(a, lambda y: y in data) for a in x.args[1:])
+                            and any(tm.contains(a, lambda y: (y.op == "attr" and y.args[1] == "weights") or (y.op == "param" and y.args[0] == "weights")) and not tm.contains(a, lambda y: y in data) for a in x.args[1:])]
+                    rep.check(bool(data) and bool(prod), "R-C18-j", "%s@%d" % (f2.fq, e.line), "%s, weighted: each squared deviation is multiplied by its weight" % q.split(".")[-1], "(x - mean)**2 * w",
+                              "no product of the squared deviations with the weights", witness={"inputs": "weights [1, 3]: the result equals the unweighted one or is garbage"})
+            for e in sq:
+                t = e["args"][0]
+                w = "%s@%d" % (f2.fq, e.line)
+                cons = "%s, %s: variance scaling" % (q.split(".")[-1], "weighted" if wmode else "unweighted")
+                def nm1(x):
+                    return x.op == "binop" and x.args[0] == "-" and tm.is_const(x.args[2], 1)
+                if wmode:
+                    ok = t.op == "binop" and t.args[0] == "*" and any(y.op == "binop" and y.args[0] == "/" and nm1(y.args[2]) and y.args[1] == y.args[2].args[1] for y in t.args[1:])
+                    rep.check(ok, "R-C18-j", w, cons, "(weighted mean square) * N / (N - 1)", "the scaling is %s" % tm.show(t)[:80], witness={"inputs": "two rows with equal weights: the result differs from the unweighted sample standard deviation"})
+                else:
+                    ok = t.op == "binop" and t.args[0] == "/" and nm1(t.args[2])
+                    rep.check(ok, "R-C18-j", w, cons, "sum of squared deviations / (N - 1)", "the divisor is %s" % tm.show(t)[:60], witness={"inputs": "rows 1 and 3: 1.414 expected"})
+    # the dimensionless routine needs two rows
+    f3 = prog.func("xfuncs", "xfunc_stddev._fill_one_no_coordinates")
+    I3 = _I(prog, _h.param_types_for("xfuncs"), _h.FIELD_TYPES, inline=False)
+    I3.run(f3)
+    st = [e for e in I3.events if e.kind == "store_sub" and tm.contains(e["value"], lambda x: x.op == "call" and tm.callee_name(x) == "numpy.sqrt")]
+    okt = bool(st) and all(any(c.op == "cmp" and ((c.args[0] == ">=" and pol and tm.is_const(c.args[2], 2)) or (c.args[0] == ">" and pol and tm.is_const(c.args[2], 1)) or (c.args[0] == "<" and not pol and tm.is_const(c.args[2], 2)))
+                               and c.args[1].op == "call" and tm.callee_name(c.args[1]) == "builtins.len" for c, pol in flat_guards(e.guards)) for e in st)
+    rep.check(okt, "R-C18-j", f3.fq, "without dimensions the standard deviation is computed exactly when there are at least 2 rows", "len(summables) >= 2", "the threshold is not 2: with exactly two rows the value stays NaN although two valid rows are counted",
+              witness={"inputs": "xcube([]).stddev([1.0, 3.0]) -> (nan, True) in the pair format"})
+
+
+def rule_i(prog, rep):
+    from sa import hints as _h
+    from sa.symex import Interp as _I, flat_guards
+    fi = prog.func("xfuncs", "xfunc_op_base.fill")
+    for ign in (False, True):
+        def oracle(t, ign=ign):
+            if t.op == "attr" and t.args[1] == "ignore_missing":
+                return ign
+            return None
+        I = _I(prog, _h.param_types_for("xfuncs"), _h.FIELD_TYPES, inline=False, oracle=oracle)
+        I.run(fi)
+        sts = [e for e in I.events if e.kind == "store_sub" and not e.stack]
+        vals = [e for e in sts if e["value"].op == "call" and e["value"].args[0].op == "attr" and e["value"].args[0].args[1] == "op"]
+        flags = [e for e in sts if tm.is_const(e["value"]) and isinstance(e["value"].args[1], bool)]
+        label = "ignoring" if ign else "propagating"
+        if len(vals) != 2:
+            rep.undecided("R-C18-i", fi.fq, "min/max fill (%s)" % label, "expected 2 value stores (with / without coordinates), found %d" % len(vals))
+            continue
+        for v in vals:
+            w = "%s@%d" % (fi.fq, v.line)
+            twin = [f for f in flags if f["index"] == v["index"] and set(map(repr, flat_guards(f.guards))) == set(map(repr, flat_guards(v.guards))) and f["base"] != v["base"]]
+            rep.check(len(twin) == 1 and twin[0]["value"] == tm.TRUE, "R-C18-i", w, "min/max (%s): the cell that receives a value is marked valid under the same guards" % label, "",
+                      "no `validity[cell] = True` accompanies the value store (found %s)" % [tm.show(f["value"]) for f in twin],
+                      witness={"inputs": "any cell with rows: the value is computed but reported missing (validity False), or a missing cell is reported valid"})
+            g = flat_guards(v.guards)
+            has_len = any(pol and c.op == "call" and tm.callee_name(c) == "builtins.len" for c, pol in g)
+            all_valid = any(pol and c.op == "call" and tm.callee_name(c) in ("numpy.all", ".all") and tm.contains(c, lambda x: x.op == "attr" and x.args[1] == "validity") for c, pol in g)
+            rep.check(has_len and (ign or all_valid), "R-C18-i", w, "min/max (%s): computed for a non-empty cell%s" % (label, "" if ign else " whose rows are all valid"), "",
+                      "guards are %s" % [tm.show(c)[:35] for c, p in g if tm.contains(c, lambda x: x.op == "attr" and x.args[1] in ("values", "validity"))][:3],
+                      witness={"inputs": "a cell with one missing row under propagation returns a number; an empty cell calls min() on nothing"})
+            arg = v["value"].args[1][0] if v["value"].args[1] else None
+            masked = arg is not None and tm.contains(arg, lambda x: x.op == "sub" and x.args[0] == T("attr", tm.param("self"), "values") and x.args[1] == T("attr", tm.param("self"), "validity"))
+            rep.check(masked == ign, "R-C18-i", w, "min/max (%s): reduces %s" % (label, "the valid rows only" if ign else "all rows of the cell"), "", "the reduced rows are %s" % (arg is not None and tm.show(arg)[:50]),
+                      witness={"inputs": "ignore_missing=True with a NaN row: the result is NaN"})
+
+
 def main(tier):
     rep = core.Report("C18", level="other", rules=RULES, tier=tier,
                       declined="per-cell numerical equality with the textbook statistic (floating-point values)")
@@ -371,6 +645,8 @@ def main(tier):
     rule_e(prog, rep)
     rule_f(prog, rep)
     rule_g(prog, rep)
+    rule_j(prog, rep)
+    rule_i(prog, rep)
     import c17
     sub17 = core.Report("C17", level="other", rules=c17.RULES, tier=tier)
     st17 = {"events": 0, "mods": 0, "diagnostic": {}, "exceptions": {}, "regions": 0, "shortcuts": 0}
